@@ -156,3 +156,51 @@ def run_stress(case):
         out["cls"] = type(ex).__name__
         out["error"] = str(ex)[:200]
     return out
+
+
+# requests outside the decision table's coordinates that must be refused (one implemented guard each)
+PROBES = [
+    dict(name="mixed active states without excited-state settings", mols=["h2o", "h2o"], active=[0, 1], expect="raise"),
+    dict(name="mixed active states without excited-state settings (3)", mols=["h2o", "h2o", "h2o"], active=[1, 0, 0], expect="raise"),
+    dict(name="H2 quartet (multiplicity = electrons + 2)", mols=["h2"], uhf=True, mult=4, expect="raise"),
+    dict(name="H2+ triplet (multiplicity = electrons + 2)", mols=["h2"], uhf=True, mult=3, charge=1, expect="raise"),
+    dict(name="H2O sextet beyond the electron count of a spin channel", mols=["hf", "h2"], uhf=True, mult=4, charge=0, expect="raise"),
+    dict(name="H2O cation, restricted", mols=["h2o"], charge=1, expect="raise"),
+    dict(name="batch [H2O, H2O+] restricted", mols=["h2o", "h2o"], charges=[0, 1], expect="raise"),
+    dict(name="CH3+ closed shell", mols=["ch3"], charge=1, mult=1, expect="return"),
+    dict(name="NH4+ closed shell", mols=["nh4+"], expect="return"),
+    dict(name="H2O dication", mols=["h2o"], charge=2, expect="return"),
+]
+
+
+def run_probe(case):
+    mdlib.use_stub(False)
+    from harness import common
+
+    common.quiet_stdio()
+    out = {"name": case["name"], "expect": case["expect"]}
+    try:
+        p = mdlib.seqm_params(scf_eps=1e-6, scf_converger=[1])
+        sp, xyz, q, mult = scf_driver.build_batch(case["mols"], displace=0.03)
+        if "charge" in case:
+            q = torch.full_like(q, float(case["charge"]))
+        if "charges" in case:
+            q = torch.tensor([float(c) for c in case["charges"]], dtype=q.dtype)
+        if case.get("uhf"):
+            p["UHF"] = True
+        if "mult" in case:
+            mult = torch.full_like(mult, float(case["mult"]))
+        if "active" in case:
+            p["active_state"] = torch.tensor(case["active"], dtype=torch.int64)
+        mol = Molecule(Constants(), p, xyz, sp, charges=q, mult=mult)
+        mol.verbose = False
+        es = Electronic_Structure(p)
+        es(mol)
+        out["outcome"] = "returned"
+        out["finite"] = bool(torch.isfinite(mol.Etot).all() and torch.isfinite(mol.force).all())
+        out["flagged"] = bool(es.notconverged.any())
+    except Exception as ex:  # noqa
+        out["outcome"] = "raised"
+        out["cls"] = type(ex).__name__
+        out["error"] = str(ex)[:160]
+    return out
